@@ -79,7 +79,10 @@ theorem connects_handleEvent (cfg : Cfg) (c : Cli) (ns : Option Ns) (id : Option
   · simp [connects_cons, connectOf]
 
 theorem connects_ackOuts (cb : Cb) (data : Option J) : connects (ackOuts cb data) = [] := by
-  unfold ackOuts; split <;> simp [connects_cons, connectOf]
+  unfold ackOuts
+  split
+  · split <;> simp [connects_cons, connectOf]
+  · simp [connects_cons, connectOf]
 
 theorem connects_handleAck (c : Cli) (ns : Option Ns) (id : Option Nat) (data : Option J) :
     connects (handleAck c ns id data).2 = [] := by
